@@ -526,22 +526,11 @@ WITNESSES = [
     ("fmtf x2564 f400c000000000000", False),
     ("fmts x25352e3273 x61006263", False),
     ("fmtf x252e393966 f54b249ad2594c37d", False),
+    ("find x412941 x29 1 0", False),          # d52527d: each must return what Lua returns (2 2, 3 3, 2 2, 1 2)
+    ("find x286129 x29 1 0", False),
+    ("find x412941 x29 1 1", False),
+    ("find x2900 x2900 -2 0", False),
 ]
-# OPEN finding (known_findings/C13.json, exact keys): string.find runs the matcher on a pattern without special characters
-# (StrPatt.create clears `plain`), so a ')' in such a pattern stops the program where Lua does a plain search
-OPEN_WITNESSES = ["find x412941 x29 1 0", "find x286129 x29 1 0", "find x412941 x29 1 1", "find x2900 x2900 -2 0"]
-SPECIALS = b"^$*+?.([%-"
-
-
-def predicted_find_plain_defect(a, lua, nel, mod):
-    """the failure is the open finding above: string.find, Lua returns (a position or nil), the port stops, the extracted model
-    of the UNCHANGED code stops in the matcher's malformed-pattern branch, and the pattern has no special character but a ')'"""
-    if a[0] != "find" or lua.startswith("!") or nel != "!sig6" or mod != "!trap:error":
-        return False
-    pat = b"" if a[2] in ("x", "e") else bytes.fromhex(a[2][1:])
-    return b")" in pat and not any(c in SPECIALS for c in pat)
-
-
 PATTERN_OPS = ("find", "match", "gmatch", "gsub", "gsub3")
 # the stops of the pattern functions that the port documents (the model voice names its reason): recursion budget
 # MAX_MATCH_CALLS = 32, position captures "not supported yet", the 8-capture limit of gmatch.  A stop for any other reason
@@ -668,7 +657,7 @@ def correspond(ctx):
             line = line.strip()
             if line and not line.startswith("#"):
                 corpus.append(("corpus", line))
-    witnesses = [("witness", k) for k, needs_asan in WITNESSES if not needs_asan] + [("witness", k) for k in OPEN_WITNESSES]
+    witnesses = [("witness", k) for k, needs_asan in WITNESSES if not needs_asan]
     gen_list, dist = gen_cases(ctx)
     cases = witnesses + corpus + gen_list
     dist["witness"] = len(witnesses)
@@ -695,8 +684,6 @@ def correspond(ctx):
     voiced = {}
     spec_stats = {"checked": 0, "mismatch": 0}
     spec_fail = []
-    predicted = {}
-    open_witness_fails = [False]
     undefined_by = {}
 
     def handle(line, lua, nel, mod, tag=""):
@@ -733,22 +720,6 @@ def correspond(ctx):
         if st == "ok" and not nel.startswith("!") and len(line) > 14:
             nontrivial.add(line)
         key = tag + line
-        if st == "FAIL" and key not in OPEN_WITNESSES and open_witness_fails[0] and predicted_find_plain_defect(a, lua, nel, mod):
-            # not a designated witness, but exactly what the model of the unchanged code predicts for the open finding
-            # (site: StrPatt.create, plain cleared; operation: string.find; operand: a pattern without specials containing ')')
-            predicted["predicted-by-model:StrPatt.create:plain-cleared(string.find, pattern without specials)"] = \
-                predicted.get("predicted-by-model:StrPatt.create:plain-cleared(string.find, pattern without specials)", 0) + 1
-            stats["FAIL"] -= 1
-            stats["undefined"] += 1
-            return
-        if st == "FAIL" and key == OPEN_WITNESSES[0]:
-            open_witness_fails[0] = True
-        if st == "FAIL" and key in OPEN_WITNESSES:
-            # designated witnesses of an open finding: always reported (KNOWN-FINDING through their exact key), outside the cap
-            failing.append("%s%s | lua=%s | port=%s | %s" % (tag, line, lua[:100], nel[:100], why))
-            ctx.violation(key, "oracle", "%s: %s; reference Lua: %s, port: %s" % (line, why, lua[:120], nel[:120]),
-                          detail={"case": line, "reference_lua": lua, "implementation": nel, "model": mod, "why": why})
-            return
         if st == "FAIL":
             reported += 1
             failing.append("%s%s | lua=%s | port=%s | %s" % (tag, line, lua[:100], nel[:100], why))
@@ -792,7 +763,6 @@ def correspond(ctx):
         "spec_voice_mismatches": spec_stats["mismatch"],
         "port_undefined_where_lua_defined": stats["undefined"],
         "port_undefined_by_op_and_model_voice": undefined_by,
-        "failures_predicted_by_the_model_of_the_unchanged_code": predicted,
         "traces_validated_against_impl": len(cases),
         "unproved": UNPROVED,
     }
@@ -827,7 +797,7 @@ THEOREM_CLASSES = {
     "C13_match_fuel_never_exhausted": "main", "C13_match_loop_bounds_adequate": "main", "C13_match_never_unsafe": "main",
     "C13_match_positions_in_range": "main", "C13_match_class_end_in_pattern": "corollary",
     "C13_match_expansion_in_subject": "corollary", "C13_match_balance_in_subject": "corollary",
-    "C13_find_plain_first": "main", "C13_find_plain_none": "main",
+    "C13_find_plain_first": "main", "C13_find_plain_none": "main", "C13_find_plain_decision_eq_lua": "main",
     "C13_format_eq_lua": "main", "C13_format_val_is_lua": "main", "C13_format_iff_restricted_lua": "corollary",
     "C13_format_restricted_is_lua": "corollary", "C13_c99_plain_d_is_decimal": "corollary",
     "C13_gen_facts": "tripwire",
@@ -862,5 +832,5 @@ UNPROVED = [
     "string.pack / string.unpack: C13_pack_unpack_format_roundtrip is over the option LIST (after parsing) for integer, string, padding, endianness and alignment options; the runtime parser of pack is tied to Lua's by C13_packsize_eq_lua_partial for packsize only, unpack's format is parsed at compile time by the preprocessor (Lua code, not modelled; the model voice parses the format in harness glue); unpack of integers against Lua: one shared definition (round trip only); float options f d n: differential only",
     "one-direction theorems (_partial): rep / rep with separator and packsize are 'Lua returns => same value'; the converse is false by design (Lua caps results at INT_MAX, numbers in formats at 2147483639, and has no option 't'; the port has neither cap: packsize('c2147483647') = 2147483647). C13_rep_val_is_repetition bounds what rep may return; nothing bounds packsize beyond the caps (the generators stay below them); codepoint: one position, port value => Lua value",
     "utf8.codes as an iterator protocol (the step function is proved), string.byte(i, j) / string.char varargs, gsub with function or table replacement, the 8-capture limit and position captures of gmatch (asserts reproduced in driver.ml only): differential only",
-    "harness glue that is not proved: driver.ml's StrPatt.create (anchor / plain decision), capture rendering, gmatch outer loop, pack/unpack format reading; ops without a model voice: concat, float ops, utf8char2, patterns with more than 10 quantifiers or longer than 64 bytes",
+    "harness glue that is not proved: driver.ml's StrPatt.create (anchor decision; the plain decision is the extracted nl_use_plain, C13_find_plain_decision_eq_lua), capture rendering, gmatch outer loop, pack/unpack format reading; ops without a model voice: concat, float ops, utf8char2, patterns with more than 10 quantifiers or longer than 64 bytes",
 ]
